@@ -62,7 +62,8 @@ def install(it):
         return Vec(comps)
     reg("vec", vec)
 
-    def symarr(it_, ctx, name, n=None, kind="real"):
+    def symarr(it_, ctx, name, n=None, kind="real", sample=None):
+        # `sample` = (lo, hi): where the native witness search / cross-check draws the entries; no assumption here
         if n is None:
             n = z3.Int(name + "_len")
             ctx.inputs[name + "_len"] = n
@@ -280,7 +281,7 @@ def install(it):
     reg("iff", lambda it_, ctx, a, b: num_cmp("==", lift(it_.truth(a, ctx)), lift(it_.truth(b, ctx))))
     reg("ite", lambda it_, ctx, c, a, b: z_ite(it_.truth(c, ctx), a, b))
 
-    def eq(it_, ctx, a, b, tol=None):
+    def eq(it_, ctx, a, b, tol=None, scale=None):
         """mathematical equality (native interpretation: floating-point closeness)"""
         return deep_eq(it_, ctx, a, b)
     reg("eq", eq)
